@@ -110,6 +110,10 @@ class Sym:
         self.tree = None
         self.cls = spec.get("cls")
         self.depth = 0
+        # what was selected from the source (used by tools/pyslice.py to EXECUTE the same statements with CPython):
+        # prologue statements that were interpreted, the slice itself, statements whose effect was dropped (untranslatable)
+        self.plan = dict(prologue=[], slice=[], skipped=set(), loops=[])
+        self.guards = []
         self.consts = spec.get("consts", {})
 
     # ---------------- expressions
@@ -159,6 +163,8 @@ class Sym:
                     sym = {ast.Add: "+", ast.Sub: "-", ast.Mult: "*"}[type(node.op)]
                     return f"({ia} {sym} {ib})", "int"
                 # any other mix: integers are converted to floats (true division, comparison with floats, ...)
+                if isinstance(node.op, ast.Div) and tb == "int" and ta == "int":
+                    self.guards.append(f"({b} = (0 : Int))")     # int / int with a zero divisor raises ZeroDivisionError
                 a = f"(ofInt {a} : α)" if ta == "int" else a
                 node_b = (f"(ofInt {b} : α)" if tb == "int" else b)
                 ops = {ast.Add: "+", ast.Sub: "-", ast.Mult: "*", ast.Div: "/"}
@@ -383,6 +389,7 @@ class Sym:
             return self.finish(env)
         if isinstance(s, ast.Expr):     # docstring, logging call, ...
             if isinstance(s.value, ast.Constant) or isinstance(s.value, ast.Call) and (dotted(s.value.func) or "").startswith(("logger.", "logging.", "warnings.", "print")):
+                self.plan["skipped"].add(id(s))
                 return self.run(rest, env)
             raise Untranslatable("expression statement")
         if isinstance(s, ast.Pass):
@@ -415,6 +422,7 @@ class Sym:
                 # writes into containers (x[i] = ..., a, b = ...) poison what they touch
                 for n in self.assigned([s]):
                     env2[n] = POISON
+                self.plan["skipped"].add(id(s))
                 return self.run(rest, env2)
             z = self.zeros(name, value, env2)
             if z is not None:
@@ -425,14 +433,19 @@ class Sym:
                 # an input of the slice keeps standing for "the value this variable holds" (opaque right-hand sides such as
                 # frequency[index] or np.max(...) are inputs, not formulas); anything else is poisoned
                 env2[name] = self.inputs[name] if name in self.inputs else POISON
+                self.plan["skipped"].add(id(s))
                 return self.run(rest, env2)
             self.counter += 1
             fresh = f"{lean_ident(name)}_{self.counter}"
-            ann = " : α" if t == "num" else ""
+            ann = " : α" if t == "num" else (" : Int" if t == "int" else "")
             if t == "prop":
                 e, t, ann = f"(decide {e})", "bool", " : Bool"
             env2[name] = (fresh, t)
-            return f"(let {fresh}{ann} := {e}; {self.run(rest, env2)})"
+            guards, self.guards = self.guards, []
+            body = f"(let {fresh}{ann} := {e}; {self.run(rest, env2)})"
+            for g in guards:            # exceptions raised while evaluating the right-hand side
+                body = f"(if {g} then {self.exit_value('raise')} else {body})"
+            return body
         if isinstance(s, ast.If):
             static = self.static_test(s.test)
             if static is not None:          # e.g. `if verbose > 0:` with the declared constant verbose = 0
@@ -445,6 +458,7 @@ class Sym:
                 env2 = dict(env)        # an opaque test (e.g. on arrays) without exits: whatever it assigns is unknown from here on
                 for n in self.assigned([s]):
                     env2[n] = self.inputs[n] if n in self.inputs else POISON
+                self.plan["skipped"].add(id(s))
                 return self.run(rest, env2)
             if not self.has_exit(s.body) and not self.has_exit(s.orelse):
                 # no return/continue/raise inside: merge the two branches instead of duplicating the continuation
@@ -524,6 +538,7 @@ class Sym:
                 if isinstance(s, ast.Expr) and not (isinstance(s.value, ast.Constant) or isinstance(s.value, ast.Call)
                                                     and (dotted(s.value.func) or "").startswith(("logger.", "logging.", "warnings.", "print"))):
                     raise Untranslatable("expression statement")
+                self.plan["skipped"].add(id(s))
                 continue
             if isinstance(s, ast.If):
                 static = self.static_test(s.test)
@@ -536,6 +551,7 @@ class Sym:
                 except Untranslatable:
                     for n in self.assigned([s]):
                         env[n] = self.inputs[n] if n in self.inputs else POISON
+                    self.plan["skipped"].add(id(s))
                     continue
                 ea, la = self.block(s.body, env)
                 eb, lb = self.block(s.orelse, env)
@@ -567,6 +583,7 @@ class Sym:
                 if name is None:
                     for n in self.assigned([s]):
                         env[n] = POISON
+                    self.plan["skipped"].add(id(s))
                     continue
                 z = self.zeros(name, value, env)
                 if z is not None:
@@ -582,6 +599,7 @@ class Sym:
                         e, t = f"(decide {e})", "bool"
                 except Untranslatable:
                     env[name] = self.inputs[name] if name in self.inputs else POISON
+                    self.plan["skipped"].add(id(s))
                     continue
                 self.counter += 1
                 fresh = f"{lean_ident(name)}_{self.counter}"
@@ -604,6 +622,7 @@ class Sym:
                 z = self.zeros(name, value, env) if name is not None else None
                 if z is not None:
                     lets.append(z)
+                    self.plan["prologue"].append(s)
                     continue
                 if name is not None:
                     try:
@@ -614,6 +633,7 @@ class Sym:
                         fresh = f"{lean_ident(name)}_{self.counter}"
                         lets.append(f"let {fresh}{' : α' if t == 'num' else ''} := {e}; ")
                         env[name] = (fresh, t)
+                        self.plan["prologue"].append(s)
                         continue
                     except Untranslatable:
                         pass
@@ -657,6 +677,9 @@ def find_lambda(tree, path):
                 raise Untranslatable("not a lambda")
             return node
     raise Untranslatable(f"{var} not found")
+
+
+PLANS = {}      # name -> (spec, module ast, plan) of the targets translated by the last `emit`
 
 
 LEAN_TYPES = {"num": "α", "str": "String", "table": "List (String × String)", "bool": "Bool", "int": "Int", "onum": "Option α"}
@@ -709,6 +732,7 @@ def translate(repo, spec):
                             for p_, t_ in params:      # loop variables that are inputs of the slice
                                 if p_ in tnames:
                                     env[p_] = (lean_ident(p_), t_)
+                            sym.plan["loops"].append(s)
                             stmts = list(s.body)
                             break
                 else:
@@ -758,7 +782,12 @@ def translate(repo, spec):
                         break
                 else:
                     raise Untranslatable(f"no statement assigns {spec['start_at']}")
+            sym.plan["slice"] = stmts
+            sym.plan["fn"] = fn
             body = "".join(lets) + sym.run(stmts, env)
+            if sym.guards:
+                raise Untranslatable("exception guard outside an assignment")
+        PLANS[spec["name"]] = (spec, tree, sym.plan)
         return True, f"{head}\n  {body}", None
     except Untranslatable as e:
         return False, f"-- not translated: {e}\n{head}\n  {placeholder}", str(e)
@@ -863,6 +892,11 @@ GROUPS = ["Combine", "Azimuth", "Orient", "Windows", "Stats", "Sesame", "Fdwra",
 
 
 def emit(repo):
+    PLANS.clear()
+    return _emit(repo)
+
+
+def _emit(repo):
     """returns (status dict, {group: Lean text}); one file `Generated/Py<group>.lean` per group so that a target that
     breaks concerns only the properties that use its group"""
     status = {}
@@ -883,6 +917,43 @@ def emit(repo):
     return status, texts
 
 
+READ = {"num": "flt", "str": "tok", "bool": "bool", "int": "int", "onum": "optFlt"}
+SHOW = {"num": "fF", "int": "toString", "bool": "fB", "str": "id"}
+
+
+def emit_driver(status):
+    """`Generated/PyDrv.lean`: one driver command `py.NAME args…` per translated target, evaluating the generated definition at
+    `Float` (used by harness/pyvalidate.py to run the translation and the original Python statements on the same inputs)"""
+    groups = sorted({spec["group"] for spec in TARGETS})
+    L = [f"import HvsrVerif.Generated.Py{g}" for g in groups] + ["import HvsrVerif.Proto",
+         "/-! GENERATED by tools/py2lean.py -- driver commands evaluating the translated definitions at Float. -/",
+         "namespace HV.Drv", "open HV.Proto HV.Generated", "",
+         "def strPairs : P (List (String × String)) := do rep (← nat) (do let a ← tok; let b ← tok; pure (a, b))", "",
+         "def opsPy (op : String) : Option (P String) :=", "  match op with"]
+    for spec in TARGETS:
+        if status.get("py:" + spec["name"]) != "translated":
+            continue
+        binds, args = [], []
+        for t_ in spec.get("tables", []):
+            binds.append(f"let {lean_ident(t_)} ← strPairs")
+            args.append(lean_ident(t_))
+        for p_, t_ in spec["params"]:
+            binds.append(f"let {lean_ident(p_)} ← {READ[t_]}")
+            args.append(lean_ident(p_))
+        ot = spec.get("out_types", ["num"] * len(spec["out"]))
+        names = [f"o{i}" for i in range(len(ot))]
+        pat = names[0] if len(ot) == 1 else "(" + ", ".join(names) + ")"
+        shown = ' ++ " " ++ '.join(f"{SHOW[t]} {n}" for t, n in zip(ot, names))
+        call = f"Py.{spec['name']} (α := Float) " + " ".join(args)
+        if spec.get("option"):
+            body = f'match {call} with | none => "none" | some {pat} => "some " ++ {shown}'
+        else:
+            body = f'match {call} with | {pat} => "val " ++ {shown}'
+        L.append(f'  | "py.{spec["name"]}" => some (do {"; ".join(binds)}; pure ({body}))')
+    L += ["  | _ => none", "", "end HV.Drv"]
+    return "\n".join(L) + "\n"
+
+
 def write(repo, lean_dir):
     """rewrite Generated/Py<group>.lean where the text changed; returns the status dict"""
     status, texts = emit(repo)
@@ -895,6 +966,15 @@ def write(repo, lean_dir):
         if old != text:
             with open(path, "w") as f:
                 f.write(text)
+    path = os.path.join(lean_dir, "HvsrVerif", "Generated", "PyDrv.lean")
+    text = emit_driver(status)
+    old = None
+    if os.path.exists(path):
+        with open(path) as f:
+            old = f.read()
+    if old != text:
+        with open(path, "w") as f:
+            f.write(text)
     return status
 
 
